@@ -15,6 +15,8 @@ STATUS = {
     "C09": ("proof", "16 theorems: As/CastFrom between any two bnum configurations (all digit widths incl. cross-digit split/pack routines, signed and unsigned), primitive <-> bnum, bool, char: value reduced mod 2^(target BITS), never panics; reinterpretations are the identity"),
     "C10": ("proof", "27 theorems: from_str_radix / FromStr / parse_bytes / parse_str_radix / from_radix_be/le against a reference grammar sign? digit+ with Horner denotation: Ok(value) iff representable with ANY number of leading zeros, Pos/NegOverflow by sign, Empty, InvalidDigit, rejection of every non-grammar string, panic iff radix out of range"),
     "C11": ("proof", "25 theorems: to_radix_le/be = THE canonical digit sequence (uniqueness proved) for every radix 2..=256 on all four code paths incl. the inexact bit-slicing path, to_str_radix = sign + lowercase canonical numeral, panic iff radix out of range, closed round trips: parsing the printed digits / string with the REAL parser model of C10 returns the original value, for every radix, unsigned and signed (25 theorems in total)"),
+    "C12": ("proof", "31 theorems: for every trait (Display, Debug, Binary, Octal, LowerHex, UpperHex, LowerExp, UpperExp; unsigned and signed) the triple (is_nonnegative, prefix, body) handed to std's pad_integral: body = THE canonical numeral (hex_concat: per-digit numerals with interior zero padding = canonical numeral of the whole value), two's-complement pattern for signed radix forms, sign + magnitude for Display, exponent form d.ddde<k> with trailing zeros trimmed (specification proved unique); std's pad_integral itself is modelled (pad_integral_ref) and validated against the real formatter and against primitives of the same value on every run, not proved"),
+    "C18": ("other", "model + correspondence + 23 theorems (floor/mod_floor, gcd/lcm = Z.gcd/Z.lcm, sqrt/cbrt/nth_root exact for every degree incl. the general-k Newton convergence, signed roots, forwarders) whose premises about the core arithmetic are being discharged against the merged core theorems"),
     "C15": ("proof", "18 theorems: from_be/le_slice for unsigned and signed = Some(value) iff representable for byte strings of ANY length, zero/sign padding, empty slice, to_be/from_be = swap_bytes involution, to_le/from_le identity, nightly *_bytes round trips and two's-complement bytes; for every digit width that is a multiple of 8"),
     "C16": ("proof", "22 theorems: equal width + equal values => equal results and flags across digit types (add, sub, mul, cmp, shl, shr, pow; signed add, mul, cmp), extension into a wider type commutes when the exact result fits (add, sub, mul, cmp, signed add), constant tables / alias table / instantiation table REGENERATED FROM THE SOURCE on every run denote what their names advertise, MIN/MAX/BITS/BYTES values"),
     "C17": ("proof", "10 theorems on the parts of the trait layer that have content in the model: amount conversion of the 12 primitive shift-amount types and of bnum-typed amounts, Add/Div/Rem<digit>, Sum/Product as left folds, Default; reference/assign forms are the same model function as the by-value operator by construction, their agreement in the code is established by the correspondence check calling each of the ~500 generated impls"),
